@@ -43,6 +43,7 @@ type Expect struct {
 type Options struct {
 	Caching     bool   `json:"caching,omitempty"`
 	Capacity    int    `json:"capacity,omitempty"`
+	CacheOpt    string `json:"cacheOpt,omitempty"` // how caching is switched on: "" CachingWithNum(n) | enable-max: EnableCaching, MaxNumCaches(n) | max-enable: MaxNumCaches(n), EnableCaching
 	StrictSlash bool   `json:"strictSlash,omitempty"`
 	NotAllowed  bool   `json:"notAllowed,omitempty"`
 	Fallback    bool   `json:"fallback,omitempty"`
